@@ -440,6 +440,14 @@ impl<T: Float + std::ops::AddAssign> Categorical<T> {
     }
 }
 
+#[cfg(feature = "verif-hooks")]
+impl<T: Float + std::ops::AddAssign> Categorical<T> {
+    /// Verification hook: replaces the private generator (replay of solver counterexamples).
+    pub fn verif_set_rng(&mut self, rng: SmallRng) {
+        self.rng = rng;
+    }
+}
+
 impl<T: Float + std::ops::AddAssign> Discrete<T> for Categorical<T>
 where
     StandardUniform: rand::distr::Distribution<T>,
